@@ -6,6 +6,7 @@ mod c21;
 mod c22;
 mod c23;
 mod c24;
+mod c25;
 mod util;
 
 fn main() {
@@ -16,6 +17,7 @@ fn main() {
         "C22" => c22::run(&args),
         "C23" => c23::run(&args),
         "C24" => c24::run(&args),
+        "C25" => c25::run(&args),
         p => mck::report::machinery(&format!("h_air does not serve property {p:?}")),
     }
 }
